@@ -2,7 +2,7 @@ import ZixModel.Properties.C03
 /-! # C03 at the level of whole histories: the hash table refines an abstract map
 
 `Properties/C03.lean` proves one-step facts under the invariant `Inv`.  Here they are lifted over
-every sequence of insert / find / remove calls starting from `zix_hash_new`, for every key accessor
+every sequence of insert / find / remove / erase-at-an-iterator calls starting from `zix_hash_new`, for every key accessor
 `keyOf` and every hash function `codeOf` (constant, colliding, anything), and every pattern of
 allocation failures: each output is one the abstract map (a duplicate-free list of live records
 keyed by `keyOf`) allows, the set of live records is the abstract one, `zix_hash_size` is its size,
@@ -14,6 +14,7 @@ inductive Op where
   | insert (rec : Nat) (allocOk : Bool)
   | find (key : Nat)
   | remove (key : Nat) (allocOk : Bool)
+  | eraseAt (i : Nat) (allocOk : Bool)   -- `zix_hash_erase` at ANY iterator value (slot index; `n` = end)
 deriving Repr
 
 inductive Out where
@@ -40,11 +41,17 @@ def step (keyOf codeOf : Nat → Nat) (t : Table) : Op → Table × Out
     match r.2.2.1 with
     | some rec => (r.1, .removed r.2.1 rec)
     | none => (r.1, .status r.2.1)
+  | .eraseAt i ok =>
+    let r := eraseAt keyOf t i ok
+    match r.2.2.1 with
+    | some rec => (r.1, .removed r.2.1 rec)
+    | none => (r.1, .status r.2.1)
 
 /-- The abstract state after a step, determined by the operation and its output. -/
 def specNext (live : List Nat) : Op → Out → List Nat
   | .insert rec _, .status .success => rec :: live
   | .remove _ _, .removed _ r => live.filter (· ≠ r)
+  | .eraseAt _ _, .removed _ r => live.filter (· ≠ r)
   | _, _ => live
 
 /-- What the abstract map allows: `live` is the list of live records before the call. -/
@@ -57,6 +64,11 @@ def Allowed (keyOf : Nat → Nat) (live : List Nat) : Op → Out → Prop
   | .remove key ok, out =>
     (∃ r ∈ live, keyOf r = key ∧ (out = .removed .success r ∨ (ok = false ∧ out = .removed .noMem r))) ∨
     ((∀ r ∈ live, keyOf r ≠ key) ∧ out = .status .notFound)
+  | .eraseAt _ ok, out =>
+    -- the abstract map cannot know which slot an iterator value denotes: either the call is refused
+    -- (BAD_ARG, nothing changes) or some live record is removed and that record is reported
+    out = .status .badArg ∨
+    ∃ r ∈ live, (out = .removed .success r ∨ (ok = false ∧ out = .removed .noMem r))
 
 /-- The table represents the abstract list: iteration is a permutation of it (each live record
 exactly once) and the size field is its length. -/
@@ -184,6 +196,38 @@ theorem step_refines_aux (keyOf codeOf : Nat → Nat) (t : Table) (live : List N
         (fun x hx => habs x ((hmem x).1 hx))
       refine ⟨t, .status .notFound, ?_, Or.inr ⟨habs, rfl⟩, ha, hk, h⟩
       simp only [step, e3, e1, e2]
+  | eraseAt i ok =>
+    cases hrec : recordAt t i with
+    | none =>
+      have e := eraseAt_not_record keyOf t i ok hrec
+      refine ⟨t, .status .badArg, ?_, Or.inl rfl, ha, hk, h⟩
+      simp only [step, e]
+    | some r0 =>
+      have her : (eraseAt keyOf t i ok).2.2.1 = some r0 ∧
+          Inv keyOf codeOf (eraseAt keyOf t i ok).1 ∧
+          (∀ r, r ∈ liveRecs (eraseAt keyOf t i ok).1 ↔ r ∈ liveRecs t ∧ r ≠ r0) ∧
+          (eraseAt keyOf t i ok).1.count + 1 = t.count ∧
+          ((eraseAt keyOf t i ok).2.1 = .success ∨
+            (ok = false ∧ (eraseAt keyOf t i ok).2.1 = .noMem)) :=
+        eraseAt_record keyOf codeOf t h i r0 ok hrec
+      obtain ⟨e, hi, hm, _, hs⟩ := her
+      obtain ⟨c, hhold⟩ := recordAt_some_iff.1 hrec
+      have hr0 : r0 ∈ live := (hmem r0).1 (mem_liveRecs.2 ⟨i, c, hhold⟩)
+      refine ⟨(eraseAt keyOf t i ok).1,
+        .removed (eraseAt keyOf t i ok).2.1 r0, ?_, ?_, ?_, ?_, hi⟩
+      · simp only [step, e]
+      · refine Or.inr ⟨r0, hr0, ?_⟩
+        rcases hs with s | ⟨o, s⟩
+        · rw [s]; exact Or.inl rfl
+        · rw [s]; exact Or.inr ⟨o, rfl⟩
+      · show Abs _ (live.filter (· ≠ r0))
+        have hnd' : (live.filter (· ≠ r0)).Nodup := hnd.sublist List.filter_sublist
+        refine abs_of_perm hi ((List.perm_ext_iff_of_nodup (iterate_nodup hi) hnd').2 ?_)
+        intro a
+        rw [List.mem_filter, decide_eq_true_eq, ← hmem a]
+        exact hm a
+      · show (List.map keyOf (live.filter (· ≠ r0))).Nodup
+        exact List.Nodup.sublist (List.filter_sublist.map keyOf) hk
 
 theorem step_refines (keyOf codeOf : Nat → Nat) (t : Table) (live : List Nat)
     (h : Inv keyOf codeOf t) (ha : Abs t live) (hk : KeysDistinct keyOf live) (op : Op) :
@@ -271,5 +315,40 @@ theorem reachable_find (keyOf codeOf : Nat → Nat) (ops : List Op) (key : Nat) 
 /-! non-vacuity: a constant hash function, growth, removal with shrink refused -/
 example : ((run (fun r => r % 100) (fun _ => 7) new
     [.insert 1 true, .insert 2 true, .insert 101 true, .insert 3 true, .remove 2 false, .insert 4 true]).count) = 3 := by decide
+
+/-- The outputs of a history, in call order (for the examples below). -/
+def outs (keyOf codeOf : Nat → Nat) (t : Table) : List Op → List Out
+  | [] => []
+  | op :: rest => (step keyOf codeOf t op).2 :: outs keyOf codeOf (step keyOf codeOf t op).1 rest
+
+/-! non-vacuity for erase at an iterator.  Every code is 7; after the two inserts the table has 8
+slots with record 1 in slot 0 and record 2 in slot 7.  Erasing at slot 7 removes record 2 (the
+shrink is refused: NO_MEM, but the record is still removed and reported); erasing at the end
+iterator (index 8), at the tombstone just made (slot 7), at an empty slot (3) and far out of range
+is refused with BAD_ARG and changes nothing; erasing at slot 0 then removes record 1 and shrinks. -/
+example : outs (fun r => r) (fun _ => 7) new
+    [.insert 1 true, .insert 2 true, .eraseAt 7 false, .eraseAt 8 true, .eraseAt 7 true, .eraseAt 3 true,
+      .eraseAt 99 true, .find 1, .find 2, .eraseAt 0 true, .eraseAt 0 true] =
+    [.status .success, .status .success, .removed .noMem 2, .status .badArg, .status .badArg, .status .badArg,
+      .status .badArg, .found 1, .absent, .removed .success 1, .status .badArg] := by decide
+example : (run (fun r => r) (fun _ => 7) new
+    [.insert 1 true, .insert 2 true, .eraseAt 7 false, .eraseAt 8 true, .eraseAt 7 true, .eraseAt 3 true]).slots =
+    [.live 7 1, .empty, .empty, .empty, .empty, .empty, .empty, .tomb] := by decide
+example : (run (fun r => r) (fun _ => 7) new
+    [.insert 1 true, .insert 2 true, .eraseAt 7 false, .eraseAt 8 true, .eraseAt 7 true, .eraseAt 3 true]).count = 1 := by
+  decide
+/-- the end iterator of the reached table: both components of the step -/
+example : (step (fun r => r) (fun _ => 7) ⟨[.live 7 1, .tomb, .live 7 2, .empty], 2⟩ (.eraseAt 4 true)).2 =
+      .status .badArg ∧
+    (step (fun r => r) (fun _ => 7) ⟨[.live 7 1, .tomb, .live 7 2, .empty], 2⟩ (.eraseAt 4 true)).1.slots =
+      [.live 7 1, .tomb, .live 7 2, .empty] ∧
+    (step (fun r => r) (fun _ => 7) ⟨[.live 7 1, .tomb, .live 7 2, .empty], 2⟩ (.eraseAt 2 true)).2 =
+      .removed .success 2 := by decide
+/-- the abstract map allows both outcomes (and only a live record may be reported removed) -/
+example : Allowed (fun r => r) [2, 1] (.eraseAt 4 true) (.status .badArg) ∧
+    Allowed (fun r => r) [2, 1] (.eraseAt 0 true) (.removed .success 2) ∧
+    ¬ Allowed (fun r => r) [2, 1] (.eraseAt 0 true) (.removed .success 5) ∧
+    ¬ Allowed (fun r => r) [2, 1] (.eraseAt 0 true) (.removed .noMem 2) := by
+  refine ⟨Or.inl rfl, Or.inr ⟨2, by simp, Or.inl rfl⟩, ?_, ?_⟩ <;> simp [Allowed]
 
 end Zix.C03
